@@ -11,7 +11,7 @@ package geom
 //@ pred PX(s, k) = s.floats[k*Dim(s.ctype)]
 //@ pred PY(s, k) = s.floats[k*Dim(s.ctype)+1]
 // shoelace sum over the first k segments of s
-//@ recfun ShoeSum(s, k): float = ite(k <= 0, float(0), ShoeSum(s, k-1) + (PX(s, k) + PX(s, k-1)) * (PY(s, k) - PY(s, k-1)))
+//@ recfun ShoeSum(s, k): float masked = ite(k <= 0, float(0), ShoeSum(s, k-1) + (PX(s, k) + PX(s, k-1)) * (PY(s, k) - PY(s, k-1)))
 
 //@ func signedAreaOfLinearRing
 //@   mode real
@@ -23,8 +23,8 @@ package geom
 // area of the ring ls by the shoelace formula
 //@ pred RingA(ls) = ShoeSum(ls.seq, NPts(ls.seq) - 1) / 2
 // holes are rings[1..]: signed sum and sum of magnitudes over the first k holes
-//@ recfun HoleSigned(p, k): float = ite(k <= 0, float(0), HoleSigned(p, k-1) + RingA(p.rings[k]))
-//@ recfun HoleAbs(p, k): float = ite(k <= 0, float(0), HoleAbs(p, k-1) + abs(RingA(p.rings[k])))
+//@ recfun HoleSigned(p, k): float masked = ite(k <= 0, float(0), HoleSigned(p, k-1) + RingA(p.rings[k]))
+//@ recfun HoleAbs(p, k): float masked = ite(k <= 0, float(0), HoleAbs(p, k-1) + abs(RingA(p.rings[k])))
 
 //@ prop C14,C16,C20,C10
 //@ func Polygon.Area
@@ -63,12 +63,25 @@ package geom
 //@   ensures ufn(areaopts, areaOptionSet, opts).transform == nil ==> result == MPAreaSum(m, len(m.polys), ufn(areaopts, areaOptionSet, opts).signed)
 //@   loop 0 invariant 0 <= i && i <= n && n == len(m.polys) && (ufn(areaopts, areaOptionSet, opts).transform == nil ==> area == MPAreaSum(m, i, ufn(areaopts, areaOptionSet, opts).signed))
 
-// Polygon.Centroid (ring centroids weighted by +|shell area| and -|hole area|
-// over the net area) is NOT under contract: its local []float64 of ring areas
-// lives in the same float64 heap the recursive area functions read, and the
-// engine has no frame lemma for recursive spec functions across such stores.
+// ---- Polygon centroid: the ring weights (+|shell area|, -|hole area|) and their total, the net area ----
+// (the final weighted sum of ring centroids is not decided: nonlinear, see DESIGN.md 9)
+//@ pred RC(p, k) = ufn(ringcent, XY, p.rings[k])
+//@ pred NetA(p) = abs(RingA(p.rings[0])) - HoleAbs(p, len(p.rings) - 1)
+//@ prop C14,C16,C20,C10
 //@ func Polygon.Centroid
-//@   trusted
+//@   mode real
+//@   nounfold ShoeSum
+//@   timeout 60
+//@   requires len(p.rings) > 0 ==> NetA(p) != 0
+//@   ensures result.full <==> len(p.rings) > 0
+//@   loop 0 invariant 0 <= i && i <= len(p.rings) - 1 && len(p.rings) > 0
+//@   loop 0 invariant len(areas) == len(p.rings) && fresh(areas) && cap(areas) > 0 && offset(areas) == 0
+//@   loop 0 invariant areas[0] == abs(RingA(p.rings[0]))
+//@   loop 0 invariant forall k :: 1 <= k && k <= i ==> areas[k] == float(0) - abs(RingA(p.rings[k]))
+//@   loop 0 invariant sumAreas == abs(RingA(p.rings[0])) - HoleAbs(p, i)
+//@   loop 1 invariant 0 <= i$1 && i$1 <= len(p.rings) - 1 && len(p.rings) > 0 && len(areas) == len(p.rings) && areas[0] == abs(RingA(p.rings[0])) && sumAreas == NetA(p)
+//@   loop 1 invariant forall k :: 1 <= k && k < len(p.rings) ==> areas[k] == float(0) - abs(RingA(p.rings[k]))
+//@ prop C14
 
 // ---- point centroid of a collection: only non-empty points count ----
 //@ recfun MPFull(mp, k): int = ite(k <= 0, 0, MPFull(mp, k-1) + ite(mp.points[k-1].full, 1, 0))
